@@ -86,3 +86,153 @@ PROPS = {
         assumptions=['disk_used and corrupted_blobs_count are checked by the C15 byte-level scenarios once L5 lands'],
     ),
 }
+
+
+# ---- python-side oracles for P-observations that are not Spec queries -----------------------------------
+
+def _states_before(res, i):
+    for j in range(i - 1, -1, -1):
+        if res['impl'][j].startswith('#states'):
+            return [t.split(':') for t in res['impl'][j].split()[1:]]
+    return None
+
+
+def oracle_c04(res, i):
+    """lifecycle/maintenance calls succeed whenever their documented precondition holds; afterwards the storage
+    keeps accepting writes and deletes; background maintenance stays alive"""
+    cmd = res['script'][i].split()
+    out = res['impl'][i]
+    st = _states_before(res, i)
+    c = cmd[0]
+    if st is None:
+        return None
+    has_active = any(b[1] == 'a' for b in st)
+    n_closed = sum(1 for b in st if b[1] == 'c')
+    if c == 'close_active':
+        want = 'ok' if has_active else 'err ActiveBlobDoesntExist'
+    elif c == 'create_active':
+        want = 'ok' if not has_active else 'err ActiveBlobExists'
+    elif c == 'restore_active':
+        want = 'ok' if (not has_active and n_closed > 0) else ('err ActiveBlobExists' if has_active else 'err Uninitialized')
+    elif c in ('close_active_bg', 'create_active_bg', 'restore_active_bg', 'force', 'free', 'offload', 'fsync',
+               'settle', 'restart', 'open', 'close'):
+        want = 'ok'
+    elif c == 'alive':
+        want = 'alive'
+    elif c == 'w':
+        return None if out.startswith('ok') else f'MISMATCH write rejected after maintenance: {out}'
+    elif c == 'd':
+        return None if out.startswith('n=') else f'MISMATCH delete rejected after maintenance: {out}'
+    else:
+        return None
+    return None if out == want else f'MISMATCH expected=[{want}] got=[{out}]'
+
+
+def oracle_c13(res, i):
+    cmd = res['script'][i].split()
+    out = res['impl'][i]
+    c = cmd[0]
+    if c == 'alive':
+        return None if out == 'alive' else 'MISMATCH background worker is dead'
+    if c in ('settle', 'close', 'open'):
+        return None if out == 'ok' else f'MISMATCH {c}: {out}'
+    if c == 'w':
+        if not out.startswith('ok'):
+            return f'MISMATCH write failed: {out}'
+        maxdata = None
+        for tok in res['script'][0].split():
+            if tok.startswith('maxdata='):
+                maxdata = int(tok[8:])
+        if maxdata is None:
+            return None
+        now = 0
+        born = {}
+        last = None
+        for j in range(i):
+            t = res['script'][j].split()
+            if t[0] == 'wait':
+                now += int(t[1])
+            if t[0] in ('open', 'restart'):
+                born = {}
+            if res['impl'][j].startswith('#states'):
+                last = [x.split(':') for x in res['impl'][j].split()[1:]]
+                for b in last:
+                    born.setdefault(b[0], now)
+        if not last:
+            return None
+        act = [b for b in last if b[1] == 'a']
+        if not act:
+            return None   # the write creates a fresh active blob: age 0
+        a = act[0]
+        over = int(a[2]) + 1 >= maxdata
+        age = now - born.get(a[0], now)
+        if over and age >= 250 and 'switched' not in out:
+            return (f'MISMATCH no rotation: active blob {a[0]} holds {int(a[2]) + 1} >= {maxdata} records, '
+                    f'is older than the debounce interval, and the write did not lead to a switch')
+    return None
+
+
+def worker_features(lines):
+    feats = set()
+    for l in lines:
+        t = l.split()
+        if t[0] in ('close_active_bg', 'create_active_bg', 'restore_active_bg', 'force', 'close_active',
+                    'create_active', 'restore_active', 'free', 'offload', 'fsync', 'settle', 'restart', 'close'):
+            feats.add('op:' + ' '.join(t[:2]) if t[0] == 'force' else 'op:' + t[0])
+        if t[0] == 'cfg':
+            for tok in t[1:]:
+                if tok.startswith(('maxdata=', 'rt=')):
+                    feats.add(tok)
+    return feats | kv_features(lines)
+
+
+def nontrivial_worker(lines):
+    """a background request is made in a state where it cannot apply"""
+    active = True
+    closed = 0
+    for l in lines:
+        t = l.split()[0]
+        if t in ('close_active', 'close_active_bg'):
+            if not active:
+                return True
+            active, closed = False, closed + 1
+        elif t in ('create_active', 'create_active_bg'):
+            if active:
+                return True
+            active = True
+        elif t in ('restore_active', 'restore_active_bg'):
+            if active or closed == 0:
+                return True
+            active, closed = True, closed - 1
+        elif t in ('w',):
+            active = True
+    return False
+
+
+PROPS['C04'] = dict(
+    gen=lambda rng, tier: gen.maint_scenario(rng, size=tier),
+    p_cmds={'r', 'c', 'ram', 'ra', 'rw', 'counts', 'w', 'd', 'close_active', 'create_active', 'restore_active',
+            'close_active_bg', 'create_active_bg', 'restore_active_bg', 'force', 'free', 'offload', 'fsync',
+            'settle', 'alive', 'restart'},
+    oracle_cmds={'r', 'c', 'ram', 'ra', 'rw', 'counts', 'states'}, py_oracle=oracle_c04,
+    count={'quick': 160, 'thorough': 2500},
+    nontrivial=lambda lines: gen.nontrivial_kv(lines) or nontrivial_worker(lines), features=worker_features,
+    rule=("random interleavings of data operations with every lifecycle/maintenance call (sync and background "
+          "close/create/restore, force_update with 4 predicates, free_excess_resources, offload_buffer level "
+          "0..2, fsyncdata, settle = index dumps complete, restart) and all queries after every step; non-trivial = "
+          "the kv rule or a lifecycle call made where its precondition fails"),
+    assumptions=['background dump timing is explored through explicit settle points and the worker own timing'],
+)
+
+PROPS['C13'] = dict(
+    gen=lambda rng, tier: gen.worker_scenario(rng, size=tier),
+    p_cmds={'alive', 'w', 'settle', 'close', 'open', 'counts'},
+    oracle_cmds={'counts', 'states'}, py_oracle=oracle_c13,
+    count={'quick': 96, 'thorough': 800}, timeout=1800,
+    nontrivial=nontrivial_worker, features=worker_features,
+    rule=("2-20 public calls (all *_in_background variants and their sync forms in every active-blob state, "
+          "force_update with 4 predicates, writes, deletes), then the active blob is filled beyond its record limit "
+          "(limit 2/3/5) with a write after the 200 ms debounce, then settle, close, reopen; non-trivial = some "
+          "lifecycle request is made in a state where it cannot apply"),
+    assumptions=['wall-clock time enters only as lower bounds (explicit waits of 260 ms > debounce 200 ms)'],
+)
